@@ -361,8 +361,11 @@ class HistogramND(HistogramBase):
             if self.keep_missed:
                 self._missed += weight
         else:
+            # The square is taken of the python number, before anything is changed
+            # (a huge weight raises here, a narrow numpy integer does not wrap around).
+            weight2 = (weight.item() if isinstance(weight, np.generic) else weight) ** 2
+            self._errors2[ixbin] += weight2
             self._frequencies[ixbin] += weight
-            self._errors2[ixbin] += weight**2
         return ixbin
 
     def fill_n(
